@@ -280,7 +280,8 @@ def run_scenario(sc, budget=200000):
 
 
 SHAPES = ["plain", "epsv", "epsvdead", "pasv", "pasvdead", "mlst"]
-CODES = [120, 125, 150, 200, 220, 221, 226, 227, 229, 230, 250, 257, 331, 332, 333, 350, 421, 425, 426, 450, 451, 500, 501, 502, 503, 530, 550]
+CODES = [110, 120, 125, 150, 200, 202, 220, 221, 225, 226, 227, 229, 230, 234, 250, 257, 330, 331, 332, 333, 350, 421, 425, 426, 450, 451, 452, 500, 501, 502,
+         503, 504, 509, 510, 530, 532, 540, 550, 551, 552, 553, 559, 560, 600, 999]
 GOOD = {"USER": 331, "PASS": 230, "ACCT": 230, "PWD": 257, "CWD": 250, "CDUP": 250, "RMD": 250, "DELE": 250, "RNFR": 350, "RNTO": 250,
         "QUIT": 221, "TYPE": 200, "EPSV": 229, "PASV": 227, "REST": 350, "MLST": 250, "MKD": 257, "ABOR": 226}
 
@@ -369,3 +370,43 @@ def run_random(sc):
     s2 = dict(sc)
     s2["plan"] = policy(sc["seed"], sc["p"], mlsd=sc["mlsd"], mlst=sc["mlst"], epsv=sc["epsv"], exists=sc["exists"])
     return run_scenario(s2)
+
+
+def guided(num, depth, seed):
+    """Spec -> code: behaviours of MC_Client generated by TLC (-simulate) as scenarios with static plans."""
+    import os
+    import shutil
+    from . import guide, tlc
+    wd = tempfile.mkdtemp(prefix="verif-cguide-")
+    try:
+        with open(os.path.join(tlc.SPECS, "MC_Client_g.cfg")) as fh:
+            cfg_text = fh.read()
+        rc, out, wall = tlc.run("MC_Client", cfg_text, workdir=wd, workers=1, timeout=900,
+                                extra=["-simulate", "num=%d" % num, "-depth", str(depth), "-continue", "-seed", str(seed)])
+        scs, cur, steps = [], None, 0
+        for line in out.split("\n"):
+            if line.startswith("Error: Invariant GStop is violated"):
+                if cur and cur["calls"]:
+                    scs.append(cur)
+                cur = {"calls": [], "plan": []}
+            elif line.startswith("act = ") and cur is not None:
+                a = guide.parse_value(line[6:])
+                steps += 1
+                if a[0] == "call":
+                    cur["calls"].append([a[1], {"raw": a[2], "off": a[3], "wait": a[4], "cmds": a[5], "depth": a[6], "parents": a[7]}])
+                elif a[0] in ("reply", "eof", "ddata", "deof"):
+                    k = a[1]
+                    while len(cur["plan"]) <= k:
+                        cur["plan"].append([])
+                    cur["plan"][k].append({"reply": lambda: ["r", a[2], a[3]], "eof": lambda: ["eof"], "ddata": lambda: ["d", a[2]],
+                                           "deof": lambda: ["deof"]}[a[0]]())
+        if cur and cur["calls"]:
+            scs.append(cur)
+        if not scs:
+            raise tlc.TlcError("no behaviours generated:\n" + out[-2000:])
+        for sc in scs:
+            # beyond what the behaviour says the server stays silent (no implicit end of file)
+            sc["plan"] = sc["plan"] + [[] for _ in range(60)]
+        return scs, steps
+    finally:
+        shutil.rmtree(wd, ignore_errors=True)
